@@ -6,6 +6,7 @@ import (
 	"errors"
 	"fmt"
 	"sort"
+	"strings"
 	"sync"
 	"testing"
 	"time"
@@ -128,7 +129,10 @@ func (m *c15RM) end(commit bool, r rm.BranchResource) (branch.BranchStatus, erro
 	m.sim.Park(fmt.Sprintf("rm|%d|%s", m.bt, k), "")
 	switch out.Out {
 	case "err":
-		return branch.BranchStatus(out.Status), errors.New("scripted manager failure")
+		// what a manager reports comes from databases and applications: any text
+		texts := []string{"scripted manager failure", "数据库连接失败: 死锁", "Verbindung zur Datenbank verloren – Zeitüberschreitung", strings.Repeat("é", 200), strings.Repeat("x", 700), "", "línea\n2\ttab", "🙂 rollback failed"}
+		u := uint64(r.BranchId)
+		return branch.BranchStatus(out.Status), errors.New(texts[u%uint64(len(texts))])
 	case "panic":
 		panic("scripted manager panic")
 	case "unexpected":
@@ -197,6 +201,11 @@ func runC15(t *testing.T, seed uint64, planJSON []byte, tier string) (res *Resul
 		}
 		var answers []ans
 		tc.OnBranchAnswer = func(sess int, f *simtc.Frame) { answers = append(answers, ans{f, sim.Seq()}) }
+		// a frame of the client that the coordinator's decoder cannot read
+		var garbled []string
+		w.Net.OnUndecodable = func(sess int, raw []byte, err error) {
+			garbled = append(garbled, fmt.Sprintf("%d bytes: %v", len(raw), err))
+		}
 		xids := []string{TCAddr + ":9001", TCAddr + ":9002", "192.168.7.7:8091:12"}
 
 		for ei := range plan.Episodes {
@@ -281,6 +290,10 @@ func runC15(t *testing.T, seed uint64, planJSON []byte, tier string) (res *Resul
 					sig = "!" + sig
 				}
 				sim.State(sig)
+			}
+			if len(garbled) > 0 {
+				sim.Violate("C15", "addressing", "reply-not-decodable", "episode %d: %d frame(s) of the client cannot be decoded by the coordinator (first: %s)", ei, len(garbled), garbled[0])
+				garbled = nil
 			}
 			for id, fs := range byID {
 				sim.Violate("C15", "one-reply", "unsolicited-reply", "episode %d: %d reply frame(s) with message id %d which matches no request", ei, len(fs), id)
